@@ -64,6 +64,13 @@ def explore_config(case):
     n = B.mshape[0]
     I = np.eye(n)
     elems = alpha.elements(L, seed, small=is_dp)
+    if not is_dp:
+        # members on both sides of every comparison the compiled operations make along designed rays (see harvest.lie_members)
+        from .. import harvest
+        for op_ in ("to_Matrix", "inverse", "product"):
+            for p_ in harvest.lie_members(B, op_, seed, tier):
+                elems.append(dict(tag="harvest(%s)" % op_, p=p_, refs=None))
+                res.add_set("harvested_members", "%s.%s" % (name, op_))
     elems = [e for e in elems if gutil.elem_excluded(L, e["p"]) is None]
     dep = case.get("only")
     depth = 4 if tier == "thorough" else 3
